@@ -64,7 +64,7 @@ class C03(Prop):
                 else:
                     s = pick_edge()
                     e = s + rng.choice([0, MS, 100 * MS, rng.randint(0, 3000 * MS)])
-                reads.append([rng.choice([-1, -1, 0, 1, 2, 3, 100]), s, e, rng.choice([0, 0, 60, -300, 345, 840, -720])])
+                reads.append([rng.choice([-1, -1, 0, 1, 2, 3, 100, -2, -3, -100]), s, e, rng.choice([0, 0, 60, -300, 345, 840, -720])])
             # some buckets are rewritten before they are read: replace moves events in time
             repl = []
             if rng.random() < 0.4:
